@@ -12,7 +12,8 @@ import datetime as _dt
 from . import common
 
 ID = "C09"
-BUDGET = {"quick": 35.0, "thorough": 600.0}
+BUDGET = {"quick": 40.0, "thorough": 600.0}
+RUNS = {"quick": 40000}
 
 _BOUNDARY = {
     "years": [0, 1, -1, 2, -2],
